@@ -82,7 +82,8 @@ func (c05) Info() core.Info {
 		Title: "Aliases are pure abbreviations and the field cache is invisible",
 		Level: "exploration",
 		Rule: "queries = alias definition (int/float/upper/strlen/concat/split/is_int of key or value) x use (WHERE templates incl. arithmetic, OR of two uses, IN over a list alias, BETWEEN; inside function arguments incl. join/list/strlen/upper; in a later select field; ORDER BY; GROUP BY; two aliases with one defined through the other) x access path (full, prefix, range, point reads) on stores realising all 2^5 accept/reject patterns of the filter over 5 pairs plus a 70-pair store, row and batch at B in {1,2,3} (thorough: 5, 32). " +
-			"Oracles: (1) aliased query == its alias-expanded text; (2) ExecuteCtx.EnableCache on == off; (3) one column per announced field name and column i == reference value of field i on that row's pair. Non-trivial: the filter rejects at least one scanned pair before a returned row. Distinct: (query, store, mode, B).",
+			"Oracles: (1) aliased query == its alias-expanded text; (2) ExecuteCtx.EnableCache on == off; (3) one column per announced field name and column i == reference value of field i on that row's pair. Non-trivial: the filter rejects at least one scanned pair before a returned row. Distinct: (query, store, mode, B)." +
+			" Also: the chain `def as a, a as y, y as z` with the three fields in all six orders (names used ahead of the fields they name).",
 		Assumptions: []string{"alias expansion is done on the reference AST, textually independent of kvql", "reference values only where the reference evaluator is defined (DESIGN.md §3.2)"},
 	}
 }
